@@ -17,8 +17,45 @@ EXPECT = {
 VEC_SV = "std::vec::Vec<eval::value::SourcedValue>"
 
 
-def err_sites(prog, variant, module_prefix="eval"):
+VIEW_MODE = [False]
+
+
+def owner_fns(prog):
+    """The hand-written functions; in view mode (the fallback of
+    `with_views`) each one with the evaluator's shared helpers and its private
+    helpers inlined, the shared helpers themselves left out: a bounds rule
+    that moved into `container::get_list_item` is then read in the context of
+    every function that relies on it."""
+    import inline
     for f in prog.hand_fns():
+        if not VIEW_MODE[0] or f.is_closure:
+            yield f
+            continue
+        if f.path in inline.shared_helpers(prog):
+            continue
+        yield inline.view(prog, f, shared=True)
+
+
+def with_views(rule, ctx, *args):
+    """Run `rule` on the plain functions; if it does not prove the property,
+    run it again on the views (`owner_fns`).  Either proof suffices: inlining
+    preserves behaviour, so both analyses are sound."""
+    r = rule(ctx, *args)
+    if not r.violations:
+        return r
+    VIEW_MODE[0] = True
+    try:
+        r2 = rule(ctx, *args)
+    finally:
+        VIEW_MODE[0] = False
+    if not r2.violations:
+        r2.notes.append("decided on views with the evaluator's shared helpers inlined")
+        return r2
+    return r
+
+
+def err_sites(prog, variant, module_prefix="eval"):
+    for f in owner_fns(prog):
         if f.from_expansion or not f.module.startswith(module_prefix):
             continue
         for bb, i, pl, kd, aops, sp in f.aggregates(ERR, variant):
@@ -64,6 +101,40 @@ def rule_R11_1(ctx):
                              "rejects index 0")
 
 
+def total_lookup_guard(f, bb, index_term):
+    """If block bb (an error construction) lies on the None edge of a
+    `slice::get(index)` / `Vec::get(index)` over a value container whose
+    index argument is `index_term`: (switch block, Some edge, None edge)."""
+    idom = f.idoms()
+    cur = bb
+    for _ in range(64):
+        if cur not in idom or cur == 0:
+            return None
+        cur = idom[cur]
+        if f.term(cur)["k"] != "switch":
+            continue
+        info = f.switch_info(cur)
+        if not info or info["kind"] != "discr" or not info["enum"].startswith("std::option::Option<"):
+            continue
+        cp = f.canon(info["place"])
+        if not cp or cp[0][0] != "call":
+            continue
+        c = f.call_at(cp[0][1])
+        if c is None or c.is_ptr or (c.res or "").split("::")[-1] != "get" or len(c.args) < 2:
+            continue
+        a0 = (c.argtys[0] if c.argtys else "").replace("&mut ", "").replace("&", "")
+        if not a0.startswith(("std::vec::Vec<", "[")):
+            continue
+        if index_term is None or guards.var_of(f, c.args[1]) != index_term:
+            continue
+        cases = dict(info["cases"])
+        some_t, none_t = cases.get("Some", info["otherwise"]), cases.get("None", info["otherwise"])
+        if some_t == none_t or not f.dominates(none_t, bb):
+            return None
+        return (cur, some_t, none_t)
+    return None
+
+
 def rule_R11_3(ctx):
     prog = ctx.prog
     r = RuleResult("R11.3", "element assignment rejects exactly index >= "
@@ -73,19 +144,28 @@ def rule_R11_3(ctx):
     n = 0
     for f, bb, kd, aops, sp in err_sites(prog, "OutOfListBounds", __import__("anchors").binder_module(prog)):
         n += 1
-        g = guards.guard_of(f, bb)
         fields = guards.field_terms(f, kd, aops)
-        if g is None:
-            r.unproven.append("%s: OutOfListBounds not guarded by a comparison" % f.path)
-            continue
-        sw, op, a, b, pass_t = g
-        r.inst("%s: OutOfListBounds raised when %s" % (f.path, guards.rel_str(op, a, b)))
-        if guards.matches((op, a, b), ("Ge", "index", ("len",)), fields):
+        tl = total_lookup_guard(f, bb, fields.get("index"))
+        if tl is not None:
+            # `match items.get(index) { Some(v) => .., None => Err(OutOfListBounds) }`:
+            # the total lookup answers None exactly when index >= len
+            sw, pass_t, fail_t = tl
+            r.inst("%s: OutOfListBounds raised on the None answer of the total lookup `get(index)`" % f.path)
             r.ok()
         else:
-            r.fail("%s | error=OutOfListBounds guard=%s" % (f.path, guards.SYM[op]),
-                   "element assignment rejects when %s; documented: index >= len"
-                   % guards.rel_str(op, a, b), where=mir.span_loc(sp))
+            g = guards.guard_of(f, bb)
+            if g is None:
+                r.unproven.append("%s: OutOfListBounds not guarded by a comparison" % f.path)
+                continue
+            sw, op, a, b, pass_t = g
+            fail_t = None
+            r.inst("%s: OutOfListBounds raised when %s" % (f.path, guards.rel_str(op, a, b)))
+            if guards.matches((op, a, b), ("Ge", "index", ("len",)), fields):
+                r.ok()
+            else:
+                r.fail("%s | error=OutOfListBounds guard=%s" % (f.path, guards.SYM[op]),
+                       "element assignment rejects when %s; documented: index >= len"
+                       % guards.rel_str(op, a, b), where=mir.span_loc(sp))
         # element accesses by that index are dominated by the pass edge
         idx_var = fields.get("index")
         sites = []
@@ -97,6 +177,11 @@ def rule_R11_3(ctx):
                     sites.append(c)
         for c in sites:
             if f.dominates(pass_t, c.bb):
+                r.ok()
+            elif fail_t is not None and f.dominates(sw, c.bb) and c.bb not in mir.flag_reach(f, fail_t):
+                # relational dominance: the test dominates the access and the
+                # access cannot be reached from the failing answer (the
+                # answer travels in a Result/Option local that is matched later)
                 r.ok()
             else:
                 r.fail("%s | element access not behind the bounds test" % f.path,
@@ -151,13 +236,35 @@ def rule_R11_4(ctx):
                 if f2 is f:
                     g = guards.guard_of(f2, bb2)
                     if g:
-                        passes.append((variant, g[4]))
+                        passes.append((variant, g[4], g[0]))
         writes = [c for c in f.calls() if (c.declared or "") == "std::ops::IndexMut::index_mut"
                   and c.argtys and VEC_SV in c.argtys[0]]
+        if VIEW_MODE[0]:
+            # a view may hold several inlined copies of the range assignment
+            # and unrelated element writes: this site's writes are the ones
+            # that follow its own pass edge, and its guards the ones whose
+            # test dominates the write
+            mine = guards.guard_of(f, bb)
+            after = f.reach_from(mine[4]) if mine else set()
+            writes = [c for c in writes if c.bb in after]
         r.inst("%s: %d element writes, %d guards" % (f.path, len(writes), len(passes)))
+
+        def behind(sw_, pass_, c_):
+            if f.dominates(pass_, c_.bb):
+                return True
+            # relational dominance: the test dominates the write and the
+            # write cannot be reached from its failing edge (the verdict
+            # travels in a Result that is matched later)
+            fails = [x for x in f.succs(sw_) if x != pass_]
+            return rdom(sw_, c_.bb) and all(c_.bb not in mir.flag_reach(f, x) for x in fails)
+
+        def rdom(sw_, target):
+            """every flag-consistent path from the entry to `target` passes sw_"""
+            return f.dominates(sw_, target) or target not in mir.flag_reach(f, 0, avoid=[sw_])
         for c in writes:
-            bad = [v for v, p in passes if not f.dominates(p, c.bb)]
-            if not bad and len(passes) == 4:
+            rel = [(v, p, sw_) for v, p, sw_ in passes if not VIEW_MODE[0] or rdom(sw_, c.bb)]
+            bad = [v for v, p, sw_ in rel if not behind(sw_, p, c)]
+            if not bad and len(set(v for v, _, _ in rel)) == 4 and (VIEW_MODE[0] or len(passes) == 4):
                 r.ok()
             else:
                 r.fail("%s | write not behind tests %s" % (f.path, ",".join(bad) or "missing"),
@@ -179,6 +286,29 @@ def rule_R11_5(ctx):
         n += 1
         fields = guards.field_terms(f, kd, aops)
         end_v, len_v = fields.get("end"), fields.get("list_len")
+        if end_v and end_v[0] == "call" and (end_v[1] or "").split("::")[-1] in ("unwrap_or", "get_or_insert"):
+            # `end.unwrap_or(list_len)`: the default is the call's second argument
+            dc = f.call_at(end_v[2])
+            d = guards.var_of(f, dc.args[1]) if dc is not None and len(dc.args) > 1 else ("unknown",)
+            r.inst("%s: range end defaults to %s; list_len is %s"
+                   % (f.path, guards.term_str(d), guards.term_str(len_v) if len_v else None))
+            # ... and no other default was supplied in front of it
+            # (`end.or(Some(n)).unwrap_or(len)`)
+            pre = guards.var_of(f, dc.args[0]) if dc is not None and dc.args else ("unknown",)
+            shadow = pre[0] == "call" and (pre[1] or "").split("::")[-1] in (
+                "or", "or_else", "xor", "unwrap_or", "map_or", "get_or_insert", "get_or_insert_with", "insert", "replace")
+            if shadow:
+                r.fail("%s | omitted-end default=%s" % (f.path, (pre[1] or "").split("::")[-1]),
+                       "the omitted end of a range assignment is defaulted by %s before the "
+                       "length of the list being updated is consulted" % pre[1], where=mir.span_loc(sp))
+            elif len_v and d == len_v:
+                r.ok()
+            else:
+                r.fail("%s | omitted-end default=%s" % (f.path, guards.term_str(d)),
+                       "an omitted range-assignment end defaults to %s, which is "
+                       "not the length of the list being updated (%s)"
+                       % (guards.term_str(d), guards.term_str(len_v) if len_v else "?"), where=mir.span_loc(sp))
+            continue
         if not end_v or end_v[0] != "var":
             r.unproven.append("%s: range end is not a variable" % f.path)
             continue
@@ -259,7 +389,7 @@ def rule_R11_5(ctx):
     # wherever a range lookup `x.get(start..end)` lives: bounds that come out of
     # an Option default (`unwrap_or`, `get_or_insert`) default to 0 and len(x)
     DEFAULTING = ("unwrap_or", "get_or_insert")
-    for f in prog.hand_fns():
+    for f in owner_fns(prog):
         if f.from_expansion:
             continue
         for c in f.calls():
@@ -472,8 +602,8 @@ def rule_R11_6(ctx):
 
 
 def run(ctx):
-    return [rule_R11_1(ctx), rule_R11_2(ctx), rule_R11_3(ctx), rule_R11_4(ctx), rule_R11_5(ctx),
-            rule_R11_6(ctx)]
+    return [rule_R11_1(ctx), rule_R11_2(ctx), with_views(rule_R11_3, ctx), with_views(rule_R11_4, ctx),
+            with_views(rule_R11_5, ctx), rule_R11_6(ctx)]
 
 
 META = {
